@@ -17,6 +17,9 @@ use std::collections::{BTreeMap, BTreeSet};
 pub fn gen_history(prog: &Prog, rng: &mut Rng) -> Vec<Op> {
     let p = &prog.program;
     let mi = prog.model.as_ref().expect("model program");
+    if !mi.member_sorts.is_empty() {
+        return gen_history_member(prog, rng);
+    }
     let n_obj = rng.range(2, 5) as u32;
     let n_mor = rng.range(1, 4) as u32;
     let mut ops = Vec::new();
@@ -103,6 +106,190 @@ pub fn gen_history(prog: &Prog, rng: &mut Rng) -> Vec<Op> {
     ops
 }
 
+/// Would identifying the objects `x` and `y` close a directed cycle in the graph with the given
+/// edges? (classes: union-find over objects; a cycle makes close() panic by design)
+fn merge_closes_cycle(n: usize, uf: &[usize], edges: &[(u32, u32)], x: usize, y: usize) -> bool {
+    fn find(uf: &[usize], mut a: usize) -> usize {
+        while uf[a] != a {
+            a = uf[a];
+        }
+        a
+    }
+    let (rx, ry) = (find(uf, x), find(uf, y));
+    if rx == ry {
+        return false;
+    }
+    // contracted graph after the merge
+    let cls = |a: usize| {
+        let r = find(uf, a);
+        if r == ry {
+            rx
+        } else {
+            r
+        }
+    };
+    let mut succ: Vec<Vec<usize>> = vec![Vec::new(); n];
+    for (a, b) in edges {
+        let (ca, cb) = (cls(*a as usize), cls(*b as usize));
+        if ca == cb {
+            return true;
+        }
+        succ[ca].push(cb);
+    }
+    // DFS cycle detection
+    let mut colour = vec![0u8; n];
+    fn visit(v: usize, succ: &[Vec<usize>], colour: &mut [u8]) -> bool {
+        match colour[v] {
+            1 => return true,
+            2 => return false,
+            _ => {}
+        }
+        colour[v] = 1;
+        for w in &succ[v] {
+            if visit(*w, succ, colour) {
+                return true;
+            }
+        }
+        colour[v] = 2;
+        false
+    }
+    (0..n).any(|v| visit(v, &succ, &mut colour))
+}
+
+/// Seeded history for a program whose model has a member type: objects with their own elements,
+/// morphisms with (partial, not necessarily injective) application graphs asserted through the
+/// API, member facts over the elements of an object, equalities between elements, carriers and
+/// (where no cycle can arise) objects.
+pub fn gen_history_member(prog: &Prog, rng: &mut Rng) -> Vec<Op> {
+    let p = &prog.program;
+    let mi = prog.model.as_ref().expect("model program");
+    let (el, mem_rel, app_rel) = mi.member_sorts[0];
+    let n_obj = rng.range(2, 4) as u32;
+    let n_mor = rng.range(1, 4) as u32;
+    let mut ops = Vec::new();
+    for _ in 0..n_obj {
+        ops.push(Op::NewEl { sort: mi.model_sort });
+    }
+    let mut n_car = Vec::new();
+    for s in 0..p.sorts.len() {
+        if s != mi.model_sort && s != mi.mor_sort && s != el {
+            let n = rng.range(2, 3) as u32;
+            n_car.push((s, n));
+            for _ in 0..n {
+                ops.push(Op::NewEl { sort: s });
+            }
+        }
+    }
+    for _ in 0..n_mor {
+        ops.push(Op::NewEl { sort: mi.mor_sort });
+    }
+    // elements of each object (ids are handed out in this order)
+    let mut members: Vec<Vec<u32>> = vec![Vec::new(); n_obj as usize];
+    let mut n_el = 0u32;
+    for o in 0..n_obj {
+        let k = if rng.chance(1, 8) { 0 } else { rng.range(1, 3) };
+        for _ in 0..k {
+            ops.push(Op::NewMember { sort: el, parent: o });
+            members[o as usize].push(n_el);
+            n_el += 1;
+        }
+    }
+    if n_el == 0 {
+        ops.push(Op::NewMember { sort: el, parent: 0 });
+        members[0].push(0);
+        n_el = 1;
+    }
+    let mut rest: Vec<Op> = Vec::new();
+    let mut edges: Vec<(u32, u32)> = Vec::new();
+    for f in 0..n_mor {
+        let a = rng.below(n_obj as u64 - 1) as u32;
+        let b = rng.range(a as u64 + 1, n_obj as u64 - 1) as u32;
+        edges.push((a, b));
+        if rng.chance(9, 10) {
+            rest.push(Op::Insert { rel: mi.dom_rel, args: vec![f, a] });
+        }
+        if rng.chance(9, 10) {
+            rest.push(Op::Insert { rel: mi.cod_rel, args: vec![f, b] });
+        }
+        // the application graph of f: partial, images drawn with repetition
+        for x in &members[a as usize] {
+            if rng.chance(5, 6) && !members[b as usize].is_empty() {
+                let y = *rng.pick(&members[b as usize]);
+                rest.push(Op::Insert { rel: app_rel, args: vec![f, *x, y] });
+            }
+        }
+    }
+    let any_el = |rng: &mut Rng| rng.below(n_el as u64) as u32;
+    let n_facts = rng.range(2, 9);
+    let fact_rels: Vec<usize> = (0..p.rels.len())
+        .filter(|r| *r != mi.dom_rel && *r != mi.cod_rel && *r != app_rel && *r != mem_rel)
+        .collect();
+    for _ in 0..n_facts {
+        let r = *rng.pick(&fact_rels);
+        let rel = &p.rels[r];
+        let cols = rel.column_sorts();
+        let o = rng.below(n_obj as u64) as u32;
+        let args: Vec<u32> = cols
+            .iter()
+            .map(|s| {
+                if *s == mi.model_sort {
+                    o
+                } else if *s == el {
+                    if !members[o as usize].is_empty() && rng.chance(9, 10) {
+                        *rng.pick(&members[o as usize])
+                    } else {
+                        any_el(rng)
+                    }
+                } else {
+                    let n = n_car.iter().find(|(cs, _)| cs == s).map(|(_, n)| *n).unwrap_or(1);
+                    rng.below(n as u64) as u32
+                }
+            })
+            .collect();
+        rest.push(Op::Insert { rel: r, args });
+    }
+    if rng.chance(1, 3) {
+        // two elements of one object (or, rarely, of different objects) are identified
+        let o = rng.below(n_obj as u64) as usize;
+        let (a, b) = if members[o].len() >= 2 && rng.chance(4, 5) {
+            (*rng.pick(&members[o]), *rng.pick(&members[o]))
+        } else {
+            (any_el(rng), any_el(rng))
+        };
+        rest.push(Op::Equate { sort: el, a, b });
+    }
+    if rng.chance(1, 5) {
+        let (s, n) = *rng.pick(&n_car);
+        rest.push(Op::Equate { sort: s, a: rng.below(n as u64) as u32, b: rng.below(n as u64) as u32 });
+    }
+    if rng.chance(1, 5) {
+        let uf: Vec<usize> = (0..n_obj as usize).collect();
+        let x = rng.below(n_obj as u64) as usize;
+        let y = rng.below(n_obj as u64) as usize;
+        if !merge_closes_cycle(n_obj as usize, &uf, &edges, x, y) {
+            rest.push(Op::Equate { sort: mi.model_sort, a: x as u32, b: y as u32 });
+        }
+    }
+    match rng.below(4) {
+        0 | 1 => {}
+        2 => rest.reverse(),
+        _ => rng.shuffle(&mut rest),
+    }
+    let close_rate = *rng.pick(&[0u64, 15, 35]);
+    for o in rest {
+        ops.push(o);
+        if rng.below(100) < close_rate {
+            if rng.chance(1, 5) {
+                ops.push(Op::CloseUntil { stop_at: rng.below(3) as u32 });
+            } else {
+                ops.push(Op::Close);
+            }
+        }
+    }
+    ops.push(Op::Close);
+    ops
+}
+
 /// Does the history let structure (dom / cod, or the constants they are derived from) arrive
 /// after a member fact has had a chance to age? That is the shape the known finding needs.
 pub fn late_structure(prog: &Prog, ops: &[Op]) -> bool {
@@ -114,9 +301,18 @@ pub fn late_structure(prog: &Prog, ops: &[Op]) -> bool {
     }
     let mut fact_seen = false;
     let mut aged = false;
+    let app_rels: Vec<usize> = mi.member_sorts.iter().map(|(_, _, a)| *a).collect();
+    let structural_sorts: Vec<usize> = [mi.model_sort, mi.mor_sort].into_iter().chain(mi.member_sorts.iter().map(|(s, _, _)| *s)).collect();
     for o in ops {
         match o {
-            Op::Insert { rel, .. } if *rel == mi.dom_rel || *rel == mi.cod_rel => {
+            Op::Insert { rel, .. } if *rel == mi.dom_rel || *rel == mi.cod_rel || app_rels.contains(rel) => {
+                if aged {
+                    return true;
+                }
+            }
+            // identifying objects, morphisms or member elements rewrites dom / cod / application
+            // rows: new structure over facts that may already be old
+            Op::Equate { sort, .. } if structural_sorts.contains(sort) => {
                 if aged {
                     return true;
                 }
@@ -132,6 +328,83 @@ pub fn late_structure(prog: &Prog, ops: &[Op]) -> bool {
         }
     }
     false
+}
+
+/// Do the redundant `_all` copies of a member relation (every column order, diagonal-restricted
+/// copies) denote one and the same set of inherited tuples? Returns the kind of the first copy
+/// that deviates:
+///   "unmapped-order"  its column order puts a member-typed column before the model column
+///                     (the generator of recompute_model_indices does not map such columns: it
+///                     carries a TODO saying so),
+///   "diagonal-copy"   it is a diagonal-restricted copy (it is computed from the diagonal copy of
+///                     the domain, so a tuple that becomes diagonal only through a non-injective
+///                     morphism never enters it),
+///   "other"           anything else.
+pub fn inherited_copies_deviation(prog: &Prog, m: &dyn DynModel) -> Option<&'static str> {
+    use crate::monitors::{parse_field, rows_of, satisfies};
+    let p = &prog.program;
+    let mi = prog.model.as_ref()?;
+    let member_sorts: Vec<usize> = mi.member_sorts.iter().map(|(s, _, _)| *s).collect();
+    // (rel, new) -> [(kind of copy, pattern, rows)]
+    let mut groups: BTreeMap<(usize, bool), Vec<(&'static str, Option<Vec<usize>>, BTreeSet<Vec<u32>>)>> = BTreeMap::new();
+    for d in m.indices() {
+        let base = match d.field.strip_suffix("_all") {
+            Some(b) => b,
+            None => continue,
+        };
+        let fi = parse_field(p, base)?;
+        let r = fi.rel?;
+        let cols = p.rels[r].column_sorts();
+        let rows = match rows_of(&fi, cols.len(), &d.tuples) {
+            Ok(rows) => rows,
+            Err(_) => return Some("other"),
+        };
+        // stored columns in index order
+        let reps: Vec<usize> = match &fi.eqs {
+            Some(eqs) => {
+                let mut v = eqs.clone();
+                v.sort();
+                v.dedup();
+                v
+            }
+            None => (0..cols.len()).collect(),
+        };
+        let stored: Vec<usize> = fi.order.iter().filter_map(|c| reps.get(*c).copied()).collect();
+        let model_pos = stored.iter().position(|c| *c == 0).unwrap_or(0);
+        let member_before_model = stored[..model_pos].iter().any(|c| member_sorts.contains(&cols[*c]));
+        let kind = if member_before_model {
+            "unmapped-order"
+        } else if fi.eqs.is_some() {
+            "diagonal-copy"
+        } else {
+            "plain"
+        };
+        groups.entry((r, fi.new)).or_default().push((kind, fi.eqs.clone(), rows));
+    }
+    let mut worst: Option<&'static str> = None;
+    for (_, copies) in groups {
+        // reference: a plain copy in model-first order if there is one
+        let reference = copies.iter().find(|(k, e, _)| *k == "plain" && e.is_none()).or_else(|| copies.iter().find(|(_, e, _)| e.is_none()));
+        let reference = match reference {
+            Some(r) => r.clone(),
+            None => continue,
+        };
+        for (kind, eqs, rows) in &copies {
+            let want: BTreeSet<Vec<u32>> = match eqs {
+                Some(e) => reference.2.iter().filter(|row| satisfies(e, row)).cloned().collect(),
+                None => reference.2.clone(),
+            };
+            if *rows != want {
+                let k = if *kind == "plain" { if reference.0 == "plain" { "other" } else { reference.0 } } else { *kind };
+                worst = match (worst, k) {
+                    (Some("other"), _) | (_, "other") => Some("other"),
+                    (Some(w), _) => Some(w),
+                    (None, k) => Some(k),
+                };
+            }
+        }
+    }
+    worst
 }
 
 fn toposort_reference(prog: &Prog, m: &dyn DynModel) -> (BTreeSet<(u32, u32, u32)>, bool) {
@@ -210,11 +483,29 @@ pub fn run_c17(prog: &Prog, ops: &[Op], want_c18: bool) -> Result<RunInfo, Fail>
     let p = &prog.program;
     let mut info = RunInfo::default();
     let suffix = if late_structure(prog, ops) { "late-structure" } else { "early-structure" };
+    // objects, morphisms or member elements identified *during* a close (by a rule or by
+    // single-valuedness): dom / cod / application rows are rewritten while facts are already old,
+    // which is late structure that no assertion of the history shows
+    let derived_merge = std::cell::Cell::new(false);
+    let structural_classes = |v: &dyn DynModel| -> usize {
+        let mi = prog.model.as_ref().unwrap();
+        let mut n = v.iter_sort(mi.model_sort).len() + v.iter_sort(mi.mor_sort).len();
+        for (s, _, _) in &mi.member_sorts {
+            n += v.iter_sort(*s).len();
+        }
+        n
+    };
+    // set as soon as the redundant copies of an inherited relation disagree (at a poll or after a close)
+    let deviation: std::cell::Cell<Option<&'static str>> = std::cell::Cell::new(None);
     let tag = |(c, m): Fail| -> Fail {
         if c == "harness" || c == "panic" {
             (c, m)
         } else {
-            (format!("{c}/{suffix}"), m)
+            let suffix = if suffix == "early-structure" && derived_merge.get() { "late-structure-derived-merge" } else { suffix };
+            match deviation.get() {
+                Some(k) if k != "other" => (format!("{c}/{suffix}/{k}"), m),
+                _ => (format!("{c}/{suffix}"), m),
+            }
         }
     };
     // (1) the history as scheduled
@@ -231,6 +522,9 @@ pub fn run_c17(prog: &Prog, ops: &[Op], want_c18: bool) -> Result<RunInfo, Fail>
     for (i, op) in ops.iter().enumerate() {
         info.steps += 1;
         let on_poll = |v: &dyn DynModel, k: u32| {
+            if !want_c18 && deviation.get().is_none() {
+                deviation.set(inherited_copies_deviation(prog, v));
+            }
             if want_c18 && topo_fail.borrow().is_none() {
                 match check_toposort(prog, v) {
                     Ok(n) => *topo_checked.borrow_mut() += (n > 0) as u64,
@@ -238,7 +532,11 @@ pub fn run_c17(prog: &Prog, ops: &[Op], want_c18: bool) -> Result<RunInfo, Fail>
                 }
             }
         };
+        let classes_before = structural_classes(m.as_ref());
         let (res, args) = apply_op(prog, m.as_mut(), op, &on_poll);
+        if matches!(op, Op::Close | Op::CloseUntil { .. }) && structural_classes(m.as_ref()) < classes_before {
+            derived_merge.set(true);
+        }
         if let Some(f) = topo_fail.borrow_mut().take() {
             return Err(f);
         }
@@ -247,6 +545,15 @@ pub fn run_c17(prog: &Prog, ops: &[Op], want_c18: bool) -> Result<RunInfo, Fail>
                 let r = asserted.new_el(*sort);
                 if r != *id {
                     return Err(("harness".into(), "ids of the real model and of the reference diverge".into()));
+                }
+            }
+            (Op::NewMember { sort, .. }, OpResult::Id(id)) => {
+                let r = asserted.new_el(*sort);
+                if r != *id {
+                    return Err(("harness".into(), "ids of the real model and of the reference diverge".into()));
+                }
+                if let lang::SortKind::Member { membership_rel, .. } = &p.sorts[*sort].kind {
+                    asserted.insert(*membership_rel, &[args[0], r]);
                 }
             }
             (Op::Insert { rel, .. }, OpResult::Unit) => {
@@ -279,8 +586,19 @@ pub fn run_c17(prog: &Prog, ops: &[Op], want_c18: bool) -> Result<RunInfo, Fail>
         info.checks = *topo_checked.borrow();
         return Ok(info);
     }
+    if deviation.get().is_none() {
+        deviation.set(inherited_copies_deviation(prog, m.as_ref()));
+    }
     let real = dump(prog, m.as_ref());
     let real_st = real.to_structure(p);
+    if std::env::var("VERIF_DEBUG").is_ok() {
+        for (r, ts) in real.rels.iter().enumerate() {
+            eprintln!("real {} = {:?}", p.rels[r].name, ts);
+        }
+        for ix in m.indices() {
+            eprintln!("index {} = {:?}", ix.field, ix.tuples);
+        }
+    }
     // (2) rules treat inherited tuples like asserted ones: the closed model satisfies every rule
     // (the implicit inheritance rules included)
     check_c01(prog, m.as_ref()).map_err(tag)?;
@@ -308,9 +626,21 @@ pub fn run_c17(prog: &Prog, ops: &[Op], want_c18: bool) -> Result<RunInfo, Fail>
     for op in ops.iter().filter(|o| !matches!(o, Op::Close | Op::CloseUntil { .. })) {
         apply_op(prog, one.as_mut(), op, &|_, _| {});
     }
-    if let OpResult::Closed { budget_hit: true, .. } = budgeted_close(prog, one.as_mut(), None, &|_, _| {}) {
+    let one_poll = |v: &dyn DynModel, _k: u32| {
+        if deviation.get().is_none() {
+            deviation.set(inherited_copies_deviation(prog, v));
+        }
+    };
+    let classes_before = structural_classes(one.as_ref());
+    if let OpResult::Closed { budget_hit: true, .. } = budgeted_close(prog, one.as_mut(), None, &one_poll) {
         info.budget_hit = true;
         return Ok(info);
+    }
+    if structural_classes(one.as_ref()) < classes_before {
+        derived_merge.set(true);
+    }
+    if deviation.get().is_none() {
+        deviation.set(inherited_copies_deviation(prog, one.as_ref()));
     }
     let one_st = dump(prog, one.as_ref()).to_structure(p);
     check_iso(p, &real_st, &one_st, &seeds, "the model built by this history", "the model built in one shot")
@@ -318,6 +648,17 @@ pub fn run_c17(prog: &Prog, ops: &[Op], want_c18: bool) -> Result<RunInfo, Fail>
         .map_err(tag)?;
     info.checks += 1;
     info.final_fingerprint = real.hash();
+    info.c17_masked = suffix != "early-structure" || derived_merge.get() || deviation.get().is_some();
+    if let Some(mi) = &prog.model {
+        if !mi.member_sorts.is_empty() {
+            // rows of member relations beyond the asserted ones in models that are the codomain of
+            // some morphism: what inheritance (with images) and the rules added
+            for r in &mi.member_rels {
+                let asserted_rows = asserted.tables[*r].len();
+                info.c17_mapped_rows += real.rels[*r].len().saturating_sub(asserted_rows) as u64;
+            }
+        }
+    }
     Ok(info)
 }
 
